@@ -125,6 +125,12 @@ EXTRA_DOCS = [
     ("header-map-dynamic", "import qmluic.QtWidgets\nQWidget { QCheckBox { id: c } QTableView { horizontalHeader.visible: c.checked } }\n"),
     ("header-map-dynamic-braces", "import qmluic.QtWidgets\nQWidget { QCheckBox { id: c } QTableView { verticalHeader { stretchLastSection: c.checked; visible: false } } }\n"),
     ("tree-header-dynamic", "import qmluic.QtWidgets\nQWidget { QCheckBox { id: c } QTreeView { header { visible: c.checked } } }\n"),
+    ("separator-with-callback", "import qmluic.QtWidgets\nQWidget { QLabel { id: l } QAction { separator: true; onTriggered: l.text = \"x\" } }\n"),
+    ("separator-with-callback-listed", "import qmluic.QtWidgets\nQWidget { QLabel { id: l } QToolButton { actions: [s] } QAction { id: s; separator: true; onTriggered: l.text = \"x\" } }\n"),
+    ("separator-with-callback-in-menu", "import qmluic.QtWidgets\nQWidget { QLabel { id: l } QMenu { QAction { text: \"a\" } QAction { separator: true; onToggled: l.text = \"x\" } } }\n"),
+    ("separator-dynamic", "import qmluic.QtWidgets\nQWidget { QCheckBox { id: c } QAction { separator: c.checked } }\n"),
+    ("separator-plus-dynamic-property", "import qmluic.QtWidgets\nQWidget { QCheckBox { id: c } QAction { separator: true; enabled: c.checked } }\n"),
+    ("separator-plus-constant-property", "import qmluic.QtWidgets\nQWidget { QAction { separator: true; text: \"t\" } }\n"),
     ("model-dynamic", "import qmluic.QtWidgets\nQWidget { QLineEdit { id: e } QComboBox { model: [e.text] } }\n"),
     ("actions-dynamic", "import qmluic.QtWidgets\nQWidget { QCheckBox { id: c } QAction { id: a1 } QAction { id: a2 } QMenu { actions: c.checked ? [a1] : [a2] } }\n"),
     ("callback-only", "import qmluic.QtWidgets\nQPushButton { onClicked: console.log(1) }\n"),
